@@ -148,6 +148,10 @@ func (eng *Engine) initExterns() {
 		tb(x, syncNote)
 		name, ref := objKey(st, args[0])
 		c := st.comp("MU!"+name, ArrSort(SI, SB))
+		// a function declared nonblocking may only lock a mutex that is known to be free
+		if top := st.frames[0].contract; top != nil && hasFlag(top, "nonblocking") {
+			x.oblige(st, "nonblock.lock", top.Props, Not(Sel(c, ref)), "Lock cannot block: the mutex is not held")
+		}
 		// Lock returns only when the mutex is free: other goroutines may release it meanwhile
 		st.setComp("MU!"+name, Sto(c, ref, TTrue))
 		k(st, nil)
@@ -272,6 +276,14 @@ func (eng *Engine) initExterns() {
 	E["strings.Contains"] = func(x *Exec, st *State, cc *ssa.CallCommon, fn *ssa.Function, args []Val, resT types.Type, k func(*State, Val)) {
 		tb(x, strNote)
 		k(st, UF(SB, "str.contains", args[0].(Term), args[1].(Term)))
+	}
+	E["strings.ContainsRune"] = func(x *Exec, st *State, cc *ssa.CallCommon, fn *ssa.Function, args []Val, resT types.Type, k func(*State, Val)) {
+		tb(x, strNote)
+		sub := UF(SI, "str.ofrune", args[1].(Term))
+		if r, ok := litVal(args[1].(Term)); ok && r.IsInt64() && r.Int64() > 0 && r.Int64() < 0x110000 {
+			sub = x.eng.strLit(x, string(rune(r.Int64()))) // the one-rune string: the same value strings.Contains(s, "<r>") tests
+		}
+		k(st, UF(SB, "str.contains", args[0].(Term), sub))
 	}
 	E["bytes.HasPrefix"] = func(x *Exec, st *State, cc *ssa.CallCommon, fn *ssa.Function, args []Val, resT types.Type, k func(*State, Val)) {
 		tb(x, strNote)
